@@ -38,6 +38,7 @@ structure DataInv (s : State) : Prop where
 
 def DataOK (_ : State) : Op → Bool
   | .propose _ (.write _ _ sh) _ => sh == 0
+  | .coordWrite (.write _ _ sh) _ => sh == 0
   | .apply _ fail _ => !fail
   | .flushBegin _ sh => sh == 0
   | .flushEnd _ sh => sh == 0
@@ -630,6 +631,18 @@ theorem dataInv_commit {j : Nat} {q : List Nat} (hL : LogInv s) (h : DataInv s)
     · cases hs
   · cases hs
 
+theorem dataInv_coordWrite {c : Cmd} {size : Nat} (h : DataInv s) (hok : DataOK s (.coordWrite c size) = true)
+    (hs : doCoordWrite s c size = some s') : DataInv s' := by
+  unfold doCoordWrite at hs
+  split at hs
+  · split at hs
+    · rename_i s1 hp
+      cases hs
+      refine dataInv_propose h ?_ hp
+      cases c <;> simp_all [DataOK]
+    · cases hs; exact h
+  · cases hs; exact h
+
 /-- the data invariant holds after every allowed step (given the log invariant before and after) -/
 theorem dataInv_step {o : Op} (hL : LogInv s) (hL' : LogInv s') (h : DataInv s) (hok : DataOK s o = true)
     (hs : step s o = some s') : DataInv s' := by
@@ -653,6 +666,7 @@ theorem dataInv_step {o : Op} (hL : LogInv s) (hL' : LogInv s') (h : DataInv s) 
   · exact dataInv_metaUp h hs
   · exact dataInv_elect h hs
   · exact dataInv_setMaster h hs
+  · exact dataInv_coordWrite h hok hs
 
 /-- both step hypotheses -/
 def AllOK (s : State) (o : Op) : Bool := LogOK s o && DataOK s o
